@@ -721,9 +721,11 @@ func runC12ListeningHttpServer(n int, r *rep.Report) (key, msg string, ok bool) 
 func TestC12(t *testing.T) {
 	r := rep.New(t, "C12")
 	defer r.Flush()
+	// journalled cases that have not ended after a minute of real time are examined (rep.Guard)
+	r.Guard(60 * time.Second)
 	if r.Lane == 3%r.Lanes {
 		// the engine behind a types.HttpServer listening itself: HTTP/1.1, HTTP/2 (TLS) and HTTP/3 (QUIC) on loopback
-		defer netLanes(r, r.N(4, 64))
+		netLanes(r, r.N(4, 64))
 	}
 	r.Rule("PRNG cases: graceful Close(false) with 0-4 accepted-but-unsent packets on polling (poll pending or absent), WebSocket and WebTransport, optionally with the transport's writer goroutine held at *.send.start while Close runs; silent client (bounded close time on virtual time); a pending poll while the session closes by each cause (incl. the client's own close packet); Server.Close and HttpServer.Close with 1-20 mixed sessions (also with the HttpServer listening itself on loopback TCP and every session's poll outstanding), buffered packets, sessions already waiting in a graceful close, and an upgrade in progress; oracle: all accepted messages before the close packet/teardown, reason 'forced close', close within max(30 s, PI+PT)+PT, pending poll answered 200 with close/noop, exactly one close event per session and an empty table after shutdown; distinct = case signature")
 	if r.Lane == 1%r.Lanes {
